@@ -450,31 +450,85 @@ def gen_triangle(rng, max_keys=136, n_slices=None, kind=None, size="small"):
             if k not in [x[0] for x in m["loss_details"]]:
                 m["loss_details"].append([k, gen_detail_value(rng)])
         metas.append(m)
-    res_months = rng.choice([1, 3, 12])
+    # sibling slices: a slice that differs from slice 0 ONLY in loss_details, or only in WHERE a key
+    # lives (details vs loss_details), or only in "attribute vs detail key of the same name" -- they
+    # sort next to each other, and a metadata test coarser than the dataclass == merges them
+    if len(metas) >= 2 and total_keys <= 130 and rng.random() < 0.45:
+        import copy as _copy
+
+        m1 = metas[0]
+        m2 = _copy.deepcopy(m1)
+        variant = rng.choice(["loss_only", "loss_only", "placement", "attr_named"])
+        if variant == "loss_only":
+            strs = [it for it in m2["loss_details"] if it[1][0] == "str"]
+            if strs and rng.random() < 0.5:
+                it = rng.choice(strs)
+                it[1] = ["str", it[1][1] + "'"]
+            else:
+                m2["loss_details"].append(["ld_only", ["str", gen_string(rng)]])
+        elif variant == "placement":
+            m1["details"] = [it for it in m1["details"] if it[0] != "coverage_p"]
+            m1["loss_details"] = [it for it in m1["loss_details"] if it[0] != "coverage_p"]
+            m2 = _copy.deepcopy(m1)
+            item = ["coverage_p", rng.choice([["str", "BI"], ["int", 7], ["bool", True], ["date", [2021, 3, 4]]])]
+            m1["details"].append(item)
+            m2["loss_details"].append(_copy.deepcopy(item))
+        else:
+            a = rng.choice(["country", "currency", "reinsurance_basis", "loss_definition"])
+            val = m1[a] if m1[a] is not None else "US"
+            m1[a] = val
+            m2 = _copy.deepcopy(m1)
+            m2[a] = None
+            m2["details"].append([a, ["str", val]])
+        metas[1] = m2
+    res_months = rng.choice([1, 3, 12, "semi", "semi"])
+    semi = res_months == "semi"
+    if semi:
+        res_months = 1
     y0, m0 = rng.randint(1, 9990) if rng.random() < 0.1 else rng.randint(1950, 2040), rng.choice([1, 4, 7, 10])
     n_periods = rng.choice([1, 2, 3]) if size != "big" else 1
+    if semi and size != "big":
+        n_periods = rng.choice([2, 3, 4])       # semi-monthly: two periods inside one calendar month
     n_evals = rng.choice([1, 2, 3]) if size != "big" else 1
+    # fields that never occur in the FIRST cell of a (slice, period) row, only at later evaluations
+    late_fields = []
+    if n_evals >= 2 and field_keys and rng.random() < 0.35:
+        late_fields = rng.sample(field_keys, min(len(field_keys), rng.choice([1, 2])))
     cells = []
     for m in metas:
         for pi in range(n_periods):
-            py, pm = _add_months(y0, m0, pi * res_months)
-            ey, em = _add_months(py, pm, res_months - 1)
-            if ey > 9998:
-                continue
-            ps, pe = [py, pm, 1], _month_end(ey, em)
-            if rng.random() < 0.15:
-                ps = [py, pm, rng.randint(1, 28)]
+            if semi:
+                py, pm = _add_months(y0, m0, pi // 2)
+                ey, em = py, pm
+                if ey > 9998:
+                    continue
+                ps, pe = ([py, pm, 1], [py, pm, 15]) if pi % 2 == 0 else ([py, pm, 16], _month_end(py, pm))
+            else:
+                py, pm = _add_months(y0, m0, pi * res_months)
+                ey, em = _add_months(py, pm, res_months - 1)
+                if ey > 9998:
+                    continue
+                ps, pe = [py, pm, 1], _month_end(ey, em)
+                if rng.random() < 0.15:
+                    ps = [py, pm, rng.randint(1, 28)]
             prev_ev = None
+            row_started = False
             for ei in range(n_evals):
-                if rng.random() < 0.2:
+                if rng.random() < 0.2 and not (late_fields and ei == 0):
                     continue  # holes
                 vy, vm = _add_months(ey, em, ei * res_months)
                 if vy > 9998:
                     continue
                 ev = _month_end(vy, vm)
                 use = [k for k in field_keys if rng.random() < (0.85 if size != "big" else 1.0)]
+                if late_fields:
+                    use = [k for k in use if k not in late_fields]
+                    if row_started:
+                        use += [k for k in late_fields if rng.random() < 0.8]
+                row_started = True
                 rng.shuffle(use)
-                vals = [[k, gen_cell_value(rng)] for k in use]
+                vals = [[k, (gen_array(rng) if (k in late_fields and rng.random() < 0.5) else gen_cell_value(rng))]
+                        for k in use]
                 c = {"kind": kind, "ps": ps, "pe": pe, "ev": ev, "prev": None, "values": vals, "meta": m}
                 if kind == "IncrementalCell":
                     if prev_ev is None:
@@ -661,8 +715,11 @@ def sequence_oracle(seq, scratch, fresh=None, orders=None):
                 tris = build_sequence([seq[i] for i in order], share=share)
                 det = {"order": order, "share": share, "compress": compress}
                 for pos, (i, tri) in enumerate(zip(order, tris)):
-                    b = impl_write(tri, scratch, compress=compress)
                     d = dict(det, index=i, position=pos)
+                    w = safe_write(tri, scratch, compress=compress)
+                    if w[0] != "ok":
+                        return (f"to_binary raised {w[1]} on file {pos} of a write sequence (a valid triangle)", d)
+                    b = w[1]
                     if compress:
                         try:
                             plain = _gzip.decompress(b)
@@ -683,6 +740,100 @@ def sequence_oracle(seq, scratch, fresh=None, orders=None):
                         return (f"file {pos} of a write sequence (triangle {i}) is not the documented layout of its "
                                 "triangle (independent encoder)", d)
     return None
+
+
+# ---------------------------------------------------------------------- path reuse
+def gen_reuse_pair(rng, max_keys=8):
+    """Two different small triangles A, B (first cells differ) for the path-reuse sequence."""
+    while True:
+        a = gen_triangle(rng, max_keys=max_keys, n_slices=rng.choice([1, 2]))
+        b = gen_triangle(rng, max_keys=max_keys, n_slices=rng.choice([1, 2]))
+        if a and b and norm_cell(a[0], False) != norm_cell(b[0], False):
+            return a, b
+
+
+def path_reuse_oracle(wt_a, wt_b, scratch, compress=False, cuts=None):
+    """Save A to P, load P; overwrite P with strict prefixes of B's file and with B's complete file;
+    every load goes through the PUBLIC Triangle.from_binary on the SAME path.  A load after a rewrite
+    must reflect the disk: an error or a leading segment of B (compressed: an error), never A's cells;
+    the complete rewrite must return B.  Returns None or (what, detail)."""
+    import warnings as _w
+
+    from bermuda import Triangle
+
+    def load():
+        try:
+            with _w.catch_warnings():
+                _w.simplefilter("ignore")
+                return ("ok", canon_triangle(Triangle.from_binary(path)))
+        except Exception as ex:  # noqa: BLE001
+            return ("err", type(ex).__name__)
+
+    path = scratch.path(".tribc" if compress else ".trib")
+    flav = "tribc" if compress else "trib"
+    tri_a, tri_b = mk_triangle(wt_a), mk_triangle(wt_b)
+    try:
+        with _w.catch_warnings():
+            _w.simplefilter("ignore")
+            tri_a.to_binary(path, compress=compress)
+        r = load()
+        if r[0] != "ok" or not wt_equal(r[1], wt_a):
+            return ("a freshly saved file does not load back as saved", {"step": "load_a", "flavour": flav})
+        b_bytes = impl_write(tri_b, scratch, compress=compress)
+        ns = list(range(len(b_bytes))) if cuts is None else [n for n in cuts if n < len(b_bytes)]
+        for n in ns:
+            with open(path, "wb") as f:
+                f.write(b_bytes[:n])
+            r = load()
+            if r[0] == "err":
+                continue
+            if compress:
+                return (f"path reuse: after the file was overwritten with the first {n} of {len(b_bytes)} bytes of "
+                        f"another COMPRESSED file, loading the same path did not raise ({len(r[1])} cells)",
+                        {"step": "cut", "cut": n, "flavour": flav})
+            if not is_prefix_of(r[1], wt_b, ordered=False):
+                stale = " (the cells of the file that used to be at that path)" if wt_equal(r[1], wt_a) else ""
+                return (f"path reuse: after the file was overwritten with the first {n} of {len(b_bytes)} bytes of "
+                        f"another file, loading the same path returned {len(r[1])} cell(s) that are not a leading "
+                        f"segment of that file{stale}", {"step": "cut", "cut": n, "flavour": flav})
+        with _w.catch_warnings():
+            _w.simplefilter("ignore")
+            tri_b.to_binary(path, compress=compress)
+        r = load()
+        if r[0] != "ok" or not wt_equal(r[1], wt_b):
+            return ("path reuse: after saving another triangle to the same path, loading it does not return that "
+                    "triangle" + (": " + first_diff(r[1], wt_b) if r[0] == "ok" else f": raised {r[1]}"),
+                    {"step": "rewrite_complete", "flavour": flav})
+        with _w.catch_warnings():
+            _w.simplefilter("ignore")
+            tri_a.to_binary(path, compress=compress)
+        r = load()
+        if r[0] != "ok" or not wt_equal(r[1], wt_a):
+            return ("path reuse: saving the first triangle again and loading does not return it",
+                    {"step": "rewrite_back", "flavour": flav})
+        return None
+    finally:
+        try:
+            os.unlink(path)
+        except OSError:
+            pass
+
+
+def replay_reuse(data, scratch):
+    bad = path_reuse_oracle(data["pair"][0], data["pair"][1], scratch, compress=data.get("flavour") == "tribc")
+    if bad is None:
+        print("path-reuse sequence: every load reflects what is on disk: property holds")
+        return 0
+    print("PROPERTY FAILS:", bad[0], bad[1])
+    return 1
+
+
+def safe_write(tri, scratch, compress=False):
+    """('ok', bytes) or ('err', class name): to_binary must not raise on a valid triangle."""
+    try:
+        return ("ok", impl_write(tri, scratch, compress=compress))
+    except Exception as ex:  # noqa: BLE001
+        return ("err", type(ex).__name__)
 
 
 def all_keys_sorted(wt):
